@@ -124,7 +124,8 @@ static void out_result(KSI_PolicyVerificationResult *r) {
 #include "kx_rules.h"
 /* one caller-owned verification context per KSI context, kept across commands (uservc=1): what a caller does who initialises
  * a context once and passes it to every call */
-static KSI_VerificationContext uservc[NSLOT]; static int uservc_init[NSLOT];
+static KSI_VerificationContext uservc[NSLOT]; static int uservc_init[NSLOT]; static KSI_DataHash *uservc_doc[NSLOT];
+static void uservc_sane(int ci);
 static int cmd_verify(void) {
 	/* verify <c> <s> <policy> [doc=imprint] [lvl=n] [pub=string] [pubfile=slot] [ext=0|1] [api=verifier|withpolicy|datahash|document|sigverify] */
 	KSI_CTX *c = ctxs[atoi(tok[1])]; KSI_Signature *s = sigs[atoi(tok[2])]; const KSI_Policy *pol = policy_by_name(tok[3]);
@@ -157,7 +158,7 @@ static int cmd_verify(void) {
 	if (!api) api = "verifier";
 	if (doc) { size_t n; unsigned char *b = kx_hexarg(doc, &n); rc = KSI_DataHash_fromImprint(c, b, n, &dh); vh_exact_free(b, n); if (rc != KSI_OK) { KSI_Policy_free(custom); kx_out(" stage=dochash"); return rc; } }
 	if (pub) { rc = KSI_PublicationData_fromBase32(c, pub, &pd); if (rc != KSI_OK) { KSI_DataHash_free(dh); KSI_Policy_free(custom); kx_out(" stage=pubstring"); return rc; } }
-	if (!strcmp(api, "verifier")) {
+	if (!strcmp(api, "verifier") && !kv("uservc")) {
 		rc = KSI_VerificationContext_init(&vc, c);
 		if (rc != KSI_OK) { KSI_DataHash_free(dh); KSI_PublicationData_free(pd); KSI_Policy_free(custom); kx_out(" stage=ctxinit"); return rc; }
 		vc.signature = s; vc.documentHash = dh; vc.docAggrLevel = kvu("lvl", 0); vc.userPublication = pd; vc.extendingAllowed = (int)kvl("ext", 0);
@@ -181,13 +182,31 @@ static int cmd_verify(void) {
 		} else rc = KSI_Signature_verifyWithPolicy(s, NULL, 0, pol, &vc);
 		vc.documentHash = NULL; vc.userPublication = NULL; vc.userPublicationsFile = NULL;
 		KSI_VerificationContext_clean(&vc);
-	} else if (!strcmp(api, "withpolicy") && kv("uservc")) {
+	} else if (!strcmp(api, "verifier") && kv("uservc")) {
+		/* KSI_SignatureVerifier_verify through the kept caller context. Like an application that fills in what it verifies and does not
+		 * tidy up afterwards, the signature, the document hash and the level STAY in the context (the hash object is kept alive here) */
 		int ci = atoi(tok[1]); KSI_VerificationContext *u = &uservc[ci];
 		if (!uservc_init[ci]) { rc = KSI_VerificationContext_init(u, c); if (rc != KSI_OK) { KSI_DataHash_free(dh); KSI_PublicationData_free(pd); KSI_Policy_free(custom); kx_out(" stage=uservc-init"); return rc; } uservc_init[ci] = 1; }
+		uservc_sane(ci);
+		u->signature = s; KSI_DataHash_free(uservc_doc[ci]); uservc_doc[ci] = dh; u->documentHash = dh; dh = NULL; u->docAggrLevel = kvu("lvl", 0);
+		u->userPublication = pd; u->extendingAllowed = (int)kvl("ext", 0);
+		rc = KSI_SignatureVerifier_verify(pol, u, &res);
+		out_result(res);
+		KSI_PolicyVerificationResult_free(res);
+		u->userPublication = NULL;
+	} else if (!strcmp(api, "withpolicy") && kv("uservc")) {
+		int ci = atoi(tok[1]); KSI_VerificationContext *u = &uservc[ci]; const KSI_DataHash *d0; KSI_uint64_t l0; const KSI_Signature *s0;
+		if (!uservc_init[ci]) { rc = KSI_VerificationContext_init(u, c); if (rc != KSI_OK) { KSI_DataHash_free(dh); KSI_PublicationData_free(pd); KSI_Policy_free(custom); kx_out(" stage=uservc-init"); return rc; } uservc_init[ci] = 1; }
+		uservc_sane(ci);
+		/* no document hash for this call: none in the context either. With an explicit one, whatever an earlier call left in the context stays there - the explicit argument has to win */
+		if (!dh) { u->documentHash = NULL; u->docAggrLevel = 0; KSI_DataHash_free(uservc_doc[ci]); uservc_doc[ci] = NULL; }
 		u->extendingAllowed = (int)kvl("ext", 0);
+		d0 = u->documentHash; l0 = u->docAggrLevel; s0 = u->signature;
+		if (s0 != NULL && s0 != s) kx_out(" stalesig=1");
+		if (d0 != NULL) kx_out(" staledoc=1");
 		rc = KSI_Signature_verifyWithPolicy(s, dh, kvu("lvl", 0), pol, u);
 		/* the explicit arguments of one call must not stay behind in the caller's context */
-		if (u->documentHash != NULL || u->docAggrLevel != 0 || u->signature != NULL) kx_out(" vcdirty=1");      /* reported, not repaired: a later call through this context shows what it leads to */
+		if (u->documentHash != d0 || u->docAggrLevel != l0 || u->signature != s0) kx_out(" vcdirty=1");      /* reported, not repaired: a later call through this context shows what it leads to */
 	} else if (!strcmp(api, "withpolicy")) {
 		if (pd || kv("pubfile") || kv("ext")) {
 			KSI_VerificationContext_init(&vc, c);
@@ -287,13 +306,30 @@ static void verify_internal_brief(KSI_CTX *c, KSI_Signature *s) { KSI_Verificati
 	kx_out(" vrc=%d", rc); if (res) kx_out(" vres=%d verr=%s", res->finalResult.resultCode, KSI_VerificationErrorCode_toString(res->finalResult.errorCode));
 	KSI_PolicyVerificationResult_free(res); vc.signature = NULL; KSI_VerificationContext_clean(&vc); }
 
+/* a signature the kept caller context still points to may have been freed meanwhile by the history: forget it then (an application would not keep it either) */
+static void uservc_sane(int ci) { int k; if (!uservc[ci].signature) return; for (k = 0; k < NSLOT; k++) if (sigs[k] == uservc[ci].signature) return; uservc[ci].signature = NULL; }
+
+static KSI_CTX *hdrcb_ctx; static unsigned long hdrcb_calls;
+static int hdrcb(KSI_Header *h) {
+	KSI_Integer *a = NULL, *b = NULL, *old = NULL; int rc;
+	hdrcb_calls++;
+	rc = KSI_Integer_new(hdrcb_ctx, 0x1122334455ULL + hdrcb_calls, &a); if (rc != KSI_OK) return rc;
+	rc = KSI_Integer_new(hdrcb_ctx, 7000 + hdrcb_calls, &b); if (rc != KSI_OK) { KSI_Integer_free(a); return rc; }
+	KSI_Header_getInstanceId(h, &old); KSI_Integer_free(old); KSI_Header_setInstanceId(h, a);
+	old = NULL; KSI_Header_getMessageId(h, &old); KSI_Integer_free(old); KSI_Header_setMessageId(h, b);
+	return KSI_OK;
+}
+
 static int dispatch(void) {
 	const char *c0 = tok[0];
 	if (!strcmp(c0, "ctx")) { int i = atoi(tok[1]); int rc = KSI_CTX_new(&ctxs[i]); if (rc == KSI_OK) kx_net_ctx_init(ctxs[i]); return rc; }
 	if (!strcmp(c0, "ctxfree")) { int i = atoi(tok[1]);
+		KSI_DataHash_free(uservc_doc[i]); uservc_doc[i] = NULL;
 		if (uservc_init[i]) { uservc[i].signature = NULL; uservc[i].documentHash = NULL; uservc[i].userPublication = NULL; uservc[i].userPublicationsFile = NULL; KSI_VerificationContext_clean(&uservc[i]); uservc_init[i] = 0; }
 		KSI_CTX_free(ctxs[i]); ctxs[i] = NULL; return 0; }
 	if (!strcmp(c0, "opt")) { int o = opt_by_name(tok[2]); if (o < 0) return -1; return KSI_CTX_setOption(ctxs[atoi(tok[1])], o, (void *)(size_t)strtoull(tok[3], NULL, 0)); }
+	if (!strcmp(c0, "hdrcb")) { /* hdrcb <c> on|off: request header callback that fills in instance id and message id (KSI_CTX_setRequestHeaderCallback) */
+		int i = atoi(tok[1]); hdrcb_ctx = ctxs[i]; return KSI_CTX_setRequestHeaderCallback(ctxs[i], !strcmp(tok[2], "on") ? hdrcb : NULL); }
 	if (!strcmp(c0, "log")) { int i = atoi(tok[1]); int rc = KSI_CTX_setLoggerCallback(ctxs[i], logcb, &loglines[i]); if (rc) return rc; return KSI_CTX_setLogLevel(ctxs[i], atoi(tok[2])); }
 	if (!strcmp(c0, "loglines")) { kx_out(" n=%lu", loglines[atoi(tok[1])]); return 0; }
 	if (!strcmp(c0, "sigparse")) {
